@@ -16,6 +16,7 @@ type case = {
   progs : (int * dop list) list;
   claims : (int * int) list;
   mus : (int * (int * int * int)) list;
+  racts : (int * ract list) list;
   items : item list;
 }
 
@@ -42,7 +43,7 @@ let parse_case (line : string) : case =
   match toks with
   | "W" :: tk :: nl :: nc :: pol :: rest ->
     let hdr = { tk = tk.[0]; nl = int_of_string nl; nc = int_of_string nc; pol } in
-    let progs = ref [] and claims = ref [] and mus = ref [] and items = ref [] in
+    let progs = ref [] and claims = ref [] and mus = ref [] and racts = ref [] and items = ref [] in
     let b x = x <> 0 in
     let rec go toks =
       match toks with
@@ -55,6 +56,24 @@ let parse_case (line : string) : case =
         let id = int_of_string id in
         let old = try List.assoc id !progs with Not_found -> [] in
         progs := (id, old @ ds) :: List.remove_assoc id !progs; go r'
+      | "RA" :: id :: n :: r ->
+        let n = int_of_string n in
+        let rec acts k toks acc = if k = 0 then (List.rev acc, toks) else
+            match toks with
+            | "ea" :: w :: r' -> acts (k - 1) r' (RExpose (zi (int_of_string w), None) :: acc)
+            | "ex" :: w :: t :: l :: h :: c :: r' ->
+              acts (k - 1) r' (RExpose (zi (int_of_string w), Some (mkrect (int_of_string t) (int_of_string l) (int_of_string h) (int_of_string c))) :: acc)
+            | "sh" :: w :: r' -> acts (k - 1) r' (RShow (zi (int_of_string w)) :: acc)
+            | "hi" :: w :: r' -> acts (k - 1) r' (RHide (zi (int_of_string w)) :: acc)
+            | "ra" :: w :: r' -> acts (k - 1) r' (RRestack (HRaise, zi (int_of_string w)) :: acc)
+            | "rf" :: w :: r' -> acts (k - 1) r' (RRestack (HRaiseFront, zi (int_of_string w)) :: acc)
+            | "lo" :: w :: r' -> acts (k - 1) r' (RRestack (HLower, zi (int_of_string w)) :: acc)
+            | "lb" :: w :: r' -> acts (k - 1) r' (RRestack (HLowerBack, zi (int_of_string w)) :: acc)
+            | _ -> failwith "ract" in
+        let (a, r') = acts n r [] in
+        let id = int_of_string id in
+        let old = try List.assoc id !racts with Not_found -> [] in
+        racts := (id, old @ a) :: List.remove_assoc id !racts; go r'
       | "CL" :: id :: m :: r -> claims := (int_of_string id, int_of_string m) :: !claims; go r
       | "MU" :: id :: c :: a :: t :: r ->
         mus := (int_of_string id, (int_of_string c, int_of_string a, int_of_string t)) :: !mus; go r
@@ -107,8 +126,23 @@ let parse_case (line : string) : case =
       | t :: _ -> failwith ("op " ^ t)
     in
     go rest;
-    { hdr; progs = !progs; claims = !claims; mus = !mus; items = List.rev !items }
+    { hdr; progs = !progs; claims = !claims; mus = !mus; racts = !racts; items = List.rev !items }
   | _ -> failwith "header"
+
+(* for the k-th flush of a case: the restack requests made since the previous flush, in order; and whether
+   any handler re-enters with a restack *)
+let restacks_per_flush (c : case) : (hchange * z) list list =
+  let acc = ref [] and cur = ref [] and made = Hashtbl.create 16 in
+  List.iter (function
+      | Op (ONew (id, _, _, _, _, _, _)) -> Hashtbl.replace made (iz id) ()
+      | Op (ORestack (k, id)) -> if Hashtbl.mem made (iz id) then cur := (k, id) :: !cur
+      | Op OFlush -> acc := List.rev !cur :: !acc; cur := []
+      | _ -> ()) c.items;
+  List.rev !acc
+let has_reentrant_restack (c : case) =
+  List.exists (fun (_, acts) -> List.exists (function RRestack _ -> true | _ -> false) acts) c.racts
+let has_restack (c : case) =
+  has_reentrant_restack c || List.exists (function Op (ORestack _) -> true | _ -> false) c.items
 
 let oracle_of_policy (pol : string) =
   match pol.[0] with
@@ -117,6 +151,9 @@ let oracle_of_policy (pol : string) =
   | 'F' -> pol_fullwidth
   | 'S' -> pol_script (List.init (String.length pol - 1) (fun i -> pol.[i + 1] = '1'))
   | _ -> pol_mock
+
+let racts_fn (c : case) : z -> ract list =
+  fun id -> try List.assoc (iz id) c.racts with Not_found -> []
 
 let progs_fn (c : case) : z -> dop list =
   fun id -> try List.assoc (iz id) c.progs with Not_found -> [DPaint]
@@ -141,8 +178,11 @@ let rec pr_tree (t : wtree) =
   List.iter pr_tree ch;
   pr "]"
 
+(* a line cell (content 200 + segment bits 1..15) is shown as one of 15 punctuation characters *)
+let line_chars = "!\"#$%&'()*+,-{}"
 let cell_char cp =
-  if cp = 32 then '.' else if cp = 35 || cp >= 128 then '#' else if cp < 33 || cp > 126 then '~' else Char.chr cp
+  if cp = 32 then '.' else if cp > 200 && cp <= 215 then line_chars.[cp - 201]
+  else if cp < 33 || cp > 126 then '~' else Char.chr cp
 
 let pr_grid (tm : term) =
   let nl = iz tm.t_lines and nc = iz tm.t_cols in
@@ -233,7 +273,8 @@ let parse_grid (s : string) =
   let nl = Array.length rows in
   let nc = if nl = 0 then 0 else String.length rows.(0) in
   Array.iter (fun r -> if String.length r <> nc then failwith "ragged grid") rows;
-  let code ch = if ch = '.' then 32 else if ch = '#' then 35 else Char.code ch in
+  let code ch = if ch = '.' then 32 else
+      match String.index_opt line_chars ch with Some k -> 201 + k | None -> Char.code ch in
   (nl, nc, fun ((l, c) : z * z) ->
       let l = iz l and c = iz c in
       if l >= 0 && l < nl && c >= 0 && c < nc then zi (code rows.(l).[c]) else zi (-1))
@@ -246,6 +287,11 @@ let parse_xlog (s : string) : (z * rect) list =
             | [t; l; h; w] -> (zi (int_of_string id), mkrect t l h w)
             | _ -> failwith "xlog rect")
         | _ -> failwith "xlog") (String.split_on_char ';' s)
+
+let parse_rects (s : string) : rect list =
+  if s = "-" then [] else
+    List.map (fun e -> match ints (String.split_on_char ',' e) with
+        | [t; l; h; w] -> mkrect t l h w | _ -> failwith "rects") (String.split_on_char ';' s)
 
 (* scroll records "id,t,l,h,w,d,r,gen;..." -> the application's content function *)
 let apply_srecs (app : z -> z -> z -> z) (s : string) =
@@ -279,12 +325,22 @@ let model (line : string) : string =
       match it with
       | Op OFlush ->
         let before = !m in
-        m := step cfg progs OFlush !m;
-        sep (); pr "F T="; pr_tree !m.m_root.r_tree;
+        m := step_re cfg progs (racts_fn c) OFlush !m;
+        sep (); pr "F U="; pr_tree before.m_root.r_tree;
+        pr " P=";
+        (match before.m_root.r_damage with
+         | [] -> pr "-"
+         | l -> List.iteri (fun k r -> pr "%s%d,%d,%d,%d" (if k > 0 then ";" else "") (iz r.top) (iz r.left) (iz r.lines) (iz r.cols)) l);
+        pr " T="; pr_tree !m.m_root.r_tree;
         pr " B="; pr_grid before.m_term; pr " G="; pr_grid !m.m_term;
         pr " X="; pr_xlog !m.m_xlog; pr_cursor !m.m_term;
         let recs = List.rev !m.m_srecs in
-        pr " A="; pr_srecs (drop !nrec recs); nrec := List.length recs
+        pr " A="; pr_srecs (drop !nrec recs); nrec := List.length recs;
+        pr " D=";
+        (match !m.m_root.r_damage with
+         | [] -> pr "-"
+         | l -> List.iteri (fun k r -> pr "%s%d,%d,%d,%d" (if k > 0 then ";" else "") (iz r.top) (iz r.left) (iz r.lines) (iz r.cols)) l);
+        pr " N=%d%d%d" (if !m.m_root.r_nexp then 1 else 0) (if !m.m_root.r_nrest then 1 else 0) (if !m.m_root.r_later then 1 else 0)
       | Op (OFocus id) ->
         sep (); pr "TF T="; pr_tree !m.m_root.r_tree;
         m := step cfg progs (OFocus id) !m;
